@@ -114,8 +114,8 @@ func janTickFlush(maxY int) bool {
 }
 
 // libGoroutinesIdle: every goroutine the library itself started (its "created by"
-// line names a function of the library package) is parked in a select, a channel
-// receive or a sleep - i.e. a janitor is back in its wait, not inside a pass.
+// line names a function of the library package) is parked - i.e. a janitor is back
+// in its wait, not inside a pass, and so are any helpers it may have.
 // Decided from runtime.Stack, so it does not depend on how the janitor is written.
 func libGoroutinesIdle() bool {
 	buf := make([]byte, 1<<20)
@@ -144,9 +144,11 @@ func libGoroutinesIdle() bool {
 		if k := strings.IndexByte(state, ','); k >= 0 {
 			state = state[:k]
 		}
-		switch state {
-		case "select", "chan receive", "sleep", "select (no cases)", "chan receive (nil chan)":
-		default:
+		// anything but a runnable / running / transient runtime state counts as parked:
+		// when every library goroutine is parked (select, channel operation, sleep,
+		// condition or mutex wait ...) nothing moves until the harness does something
+		if strings.HasPrefix(state, "run") || state == "syscall" || strings.Contains(state, "GC") ||
+			state == "preempted" || state == "copystack" || state == "waiting" {
 			return false
 		}
 	}
@@ -509,8 +511,28 @@ func runLifetime(res *result, r rng, idx int64) {
 	}
 	n := pick(r, []int{1, 10, 100})
 	interval := pick(r, []time.Duration{time.Millisecond, 10 * time.Second, time.Millisecond})
-	withCb := r.chance(0.5)
+	// active rounds: the janitors are busy sweeping (the clock ticks and ticks are
+	// delivered) WHILE their caches are dropped and collected
+	active := r.chance(0.5)
+	withCb := active || r.chance(0.5)
 	flavor := pick(r, []string{"Cache", "CacheOf[string,any]"})
+	// goroutines the library runs per cache (one janitor; an implementation may add
+	// helpers): measured on a probe cache that stays referenced during the round
+	probeSp := cacheSpec{Flavor: flavor, Ctor: "New", OptMask: 1 | 2, DefExp: time.Hour, Interval: interval, NKeys: 8}
+	if withCb {
+		probeSp.OptMask |= 4
+		probeSp.Callback = func(int, any) {}
+	}
+	probe := newCache(probeSp)
+	waitRegistered(1)
+	settle()
+	perCache := runtime.NumGoroutine() - base
+	if perCache < 1 {
+		perCache = 1
+	}
+	base += perCache
+	defer runtime.KeepAlive(probe)
+	vshim.ResetTickers()
 	freed0 := atomic.LoadInt64(&sentinelsFreed)
 	nsent := 0
 	var keep cacheAPI
@@ -528,6 +550,12 @@ func runLifetime(res *result, r rng, idx int64) {
 				c.Set(k, s, pick(r, []time.Duration{time.Hour, 1, cache.NoExpiration}))
 				nsent++
 			}
+			if active {
+				// staggered TTLs: while the clock ticks, every pass has something to evict
+				for k := 3; k < 8; k++ {
+					c.Set(k, nextVal(k), time.Duration(k-2)*3)
+				}
+			}
 			if i == 0 {
 				keep = c // negative control: stays referenced
 			}
@@ -542,7 +570,22 @@ func runLifetime(res *result, r rng, idx int64) {
 	okAll := false
 	cycles := 0
 	for cycles = 1; cycles <= 50; cycles++ {
+		if active && cycles <= 16 {
+			vshim.AdvanceQuiet(1)
+			janFireNoWait()
+			for y := 0; y < r.intn(200); y++ {
+				runtime.Gosched()
+			}
+		}
 		runtime.GC()
+		if active && cycles <= 16 {
+			// finalizers are running now: a janitor may find a tick AND its stop signal ready
+			for y := 0; y < 20; y++ {
+				vshim.AdvanceQuiet(1)
+				janFireNoWait()
+				runtime.Gosched()
+			}
+		}
 		settle()
 		stopped := 0
 		for _, t := range tks {
@@ -550,7 +593,7 @@ func runLifetime(res *result, r rng, idx int64) {
 				stopped++
 			}
 		}
-		if stopped >= n-1 && runtime.NumGoroutine() <= base+1 && atomic.LoadInt64(&sentinelsFreed)-freed0 >= int64(nsent-3) {
+		if stopped >= n-1 && runtime.NumGoroutine() <= base+perCache && atomic.LoadInt64(&sentinelsFreed)-freed0 >= int64(nsent-3) {
 			okAll = true
 			break
 		}
@@ -575,7 +618,7 @@ func runLifetime(res *result, r rng, idx int64) {
 	if periodic && stopped > n-1 {
 		bad("janitor of a cache that is still referenced was stopped", fmt.Sprintf("%d of %d tickers stopped while one cache is alive", stopped, n))
 	}
-	if keep.Count() != 3 {
+	if !active && keep.Count() != 3 {
 		bad("contents of a live cache changed", fmt.Sprintf("Count()=%d", keep.Count()))
 	}
 	fp := newFP()
